@@ -121,10 +121,7 @@ def run(repo, chk):
             chk.sample({"rule": "R-C01-1", "builder": bname, "leak": has_leak, "row": str(e)})
             if not leak:
                 chk.bad("R-C01-1", "%s: leak term is guarded by leak_status" % bname, loc(fn), found=p.label)
-        attrs = set(paths[0].updater_attrs())
-        for p in paths:
-            attrs &= set(p.updater_attrs())
-        chk.expect({"leak_status", "_is_isolated"} <= attrs, "R-C01-1", "%s rebuilds the row when leak_status or _is_isolated changes" % bname, loc(fn), found=sorted(attrs))
+        B.check_updaters(chk, "R-C01-1", fn, bname, paths, {"leak_status", "_is_isolated"}, loc(fn))
     chk.floor("R-C01-1", 2 * 5)
 
     # ---------------------------------------------------------------- R-C01-2 adjacency
